@@ -19,7 +19,7 @@ PartsLaws     == [proto  |-> {<<97, 98>>, <<99, 49>>, <<100>>, <<>>},           
               path   |-> {<<47, 112>>, <<47, 97, 64, 98>>, <<47, 97, 63, 98>>, <<47>>, <<47, 47, 120>>},   \* /p /a@b /a?b / //x
               query  |-> {<<113>>, <<120, 47, 121, 64, 122, 58, 119>>, <<107, 61, 118, 63>>, <<>>}]   \* q x/y@z:w k=v? (empty)
 NoTexts == {}
-LookupsQuick    == {<<"P", 0>>, <<"N", 0>>, <<"T", 80>>, <<"U", 8080>>}
-LookupsThorough == {<<"P", 0>>, <<"N", 0>>, <<"T", 80>>, <<"U", 8080>>, <<"T", 65535>>, <<"U", 7>>}
+LookupsQuick    == {<<"ip", 0>>, <<"no", 0>>, <<"tcp", 80>>, <<"udp", 8080>>}
+LookupsThorough == {<<"ip", 0>>, <<"no", 0>>, <<"tcp", 80>>, <<"udp", 8080>>, <<"tcp", 65535>>, <<"udp", 7>>}
 ObsNone(op, args, ret, post) == TRUE
 ================================================================================
